@@ -435,3 +435,13 @@ package sm
 //@   atcall handshake: [C12] the_connection_just_opened_is_the_one_shaken_hands_on: ARG0 == cli
 //@   ensures [C12] no_connection_without_a_handshake: err == nil ==> rc != nil && sends(rc) > 0 && iscer(lastsent(rc), cli.Handler.cfg)
 //@ end
+//@ # NewConn (the entry point a test or an application with its own transport uses) goes through dial like every other way in
+//@ func (*Client).NewConn(cli, rw, addr) (c, err)
+//@   property C12
+//@   requires cli != nil && (cli.Handler != nil ==> smok(cli.Handler) && muxwf(cli.Handler.mux)) && (cli.Dict != nil ==> pwf(cli.Dict)) && cli.MaxRetransmits < 1<<62
+//@   requires advertised_ids_are_unsigned32: (forall i int :: 0 <= i && i < len(cli.AcctApplicationID) ==> cli.AcctApplicationID[i] != nil && typeis(cli.AcctApplicationID[i].Data, datatype.Unsigned32)) &&
+//@            (forall i int :: 0 <= i && i < len(cli.AuthApplicationID) ==> cli.AuthApplicationID[i] != nil && typeis(cli.AuthApplicationID[i].Data, datatype.Unsigned32))
+//@   requires supported_apps_listed: cli.Handler != nil ==> (forall i int :: 0 <= i && i < len(cli.Handler.supportedApps) ==> cli.Handler.supportedApps[i] != nil)
+//@   atcall dial: [C12] through_the_handshake_like_every_other_way_in: ARG0 == cli
+//@   ensures [C12] no_connection_without_a_handshake: err == nil ==> c != nil && sends(c) > 0 && iscer(lastsent(c), cli.Handler.cfg)
+//@ end
